@@ -49,6 +49,14 @@ DOCUMENTED = {
 }
 
 
+def presence_check_item(it):
+    """Interface-summary item of the ISO-DEP presence check branch (`if command is None:`): that branch is only taken for the
+    literal None passed by Type4Tag._is_present, which maps CommunicationError to False (checked by C12-R3)."""
+    if it.origin != 'boundary' or it.node is None or it.site_func != 'nfc.tag.tt4.IsoDepInitiator.exchange':
+        return False
+    return any(isinstance(a, ast.If) and norm(a.test) == 'command is None' for a in ancestors(it.node))
+
+
 def tag_classes(prog):
     base = prog.cls('nfc.tag.Tag')
     return [c for c in prog.subclasses(base, strict=True) if c.module.name.startswith('nfc.tag')]
@@ -122,6 +130,8 @@ def rule_escape(report, prog, res, tier):
                     continue
                 if it.origin == 'assert' and it.site_text in ASSERTS_OK:
                     summary.setdefault('asserts_skipped', set()).add(it.site_text)
+                    continue
+                if presence_check_item(it) and short != 'is_present':
                     continue
                 doc = DOCUMENTED.get((it.exc, it.site_func)) or DOCUMENTED.get((it.exc, None))
                 if doc and short in doc:
